@@ -19,9 +19,8 @@ open AbtemVerif.Grid AbtemVerif.Py AbtemVerif.Gen.Grid
 /-! ### property theorems -/
 
 /-- An admissible assignment (values `> 0`, gpts `≥ 1`, `≥ 2` with endpoint; `None` allowed) to a consistent
-grid leaves it consistent — whether the assignment succeeds or raises, for every lock combination (with
-`lock_sampling` under the side condition, part of `Inv`, that a sampling is defined), every number of dimensions
-and every endpoint tuple. -/
+grid leaves it consistent — whether the assignment succeeds or raises, for every lock combination, every number of
+dimensions and every endpoint tuple. -/
 theorem consistent_preserved (g : Grid) (op : Op) (hI : Inv g) (hv : ValidOp g.endpoint op) : Inv (step g op).1 := by
   cases op with
   | setExtent v =>
@@ -30,7 +29,7 @@ theorem consistent_preserved (g : Grid) (op : Op) (hI : Inv g) (hv : ValidOp g.e
     next hnone =>
       split
       · exact hI
-      · refine inv_partial _ hI.ep (Or.inl rfl) ?_ ?_ ?_ hI.ls
+      · refine inv_partial _ hI.ep (Or.inl rfl) ?_ ?_ ?_
         · intro rs h; cases h
         · intro ns h; exact ⟨hI.gpLen ns h, hI.gpGood ns h⟩
         · intro ds h; exact ⟨hI.saLen ds h, hI.saPos ds h⟩
@@ -41,10 +40,12 @@ theorem consistent_preserved (g : Grid) (op : Op) (hI : Inv g) (hv : ValidOp g.e
       · split
         · exact hI
         next ve hve =>
-          rcases ve with _ | rs
-          · exact absurd (validate_none hve) hnone
-          · obtain ⟨hl, hp⟩ := validate_pos hve hv
-            exact (setExtentCore_inv g rs hI hl hp).1
+          split
+          · exact hI
+          · rcases ve with _ | rs
+            · exact absurd (validate_none hve) hnone
+            · obtain ⟨hl, hp⟩ := validate_pos hve hv
+              exact setExtentCore_inv g rs hI hl hp
   | setGpts v =>
     simp only [step, setGpts]
     split
@@ -53,9 +54,9 @@ theorem consistent_preserved (g : Grid) (op : Op) (hI : Inv g) (hv : ValidOp g.e
       · exact hI
       next vg hvg =>
         rcases vg with _ | ns
-        · exact (setGptsCore_none_inv g hI).1
+        · exact setGptsCore_none_inv g hI
         · obtain ⟨hl, hg⟩ := validateGpts_good hvg hv
-          exact (setGptsCore_inv g ns hI hl hg).1
+          exact setGptsCore_inv g ns hI hl hg
   | setSampling v =>
     simp only [step, setSampling]
     split
@@ -65,9 +66,9 @@ theorem consistent_preserved (g : Grid) (op : Op) (hI : Inv g) (hv : ValidOp g.e
       · exact hI
       next vs hvs =>
         rcases vs with _ | ds
-        · exact (setSamplingCore_none_inv g hI (by simpa using hls)).1
+        · exact setSamplingCore_none_inv g hI
         · obtain ⟨hl, hp⟩ := validate_pos hvs hv
-          exact (setSamplingCore_inv g ds hI hl hp).1
+          exact setSamplingCore_inv g ds hI hl hp
 
 /-- **Consistency in the terms of the property**: in a grid satisfying the invariant with extent and gpts
 defined, the sampling is defined and `extent = gpts × sampling` (`(gpts − 1) × sampling` with endpoint) holds in
@@ -126,12 +127,16 @@ theorem step_frame (g : Grid) (op : Op) :
       · simp
       · split
         · simp
-        · unfold setExtentCore
-          apply hb
-          · split
-            · apply hb _ _ _ (hG _ _ _); intro g1; exact hS _ _ _
-            · exact hS _ _ _
-          · intro g2; simp
+        · split
+          · simp
+          · unfold setExtentCore
+            apply hb
+            · split
+              · split
+                · simp
+                · apply hb _ _ _ (hG _ _ _); intro g1; exact hS _ _ _
+              · exact hS _ _ _
+            · intro g2; simp
   | setGpts v =>
     simp only [step, setGpts]
     split
@@ -141,7 +146,9 @@ theorem step_frame (g : Grid) (op : Op) :
       · unfold setGptsCore
         apply hb
         · split
-          · exact hE _ _ _
+          · split
+            · simp
+            · exact hE _ _ _
           · split
             · exact hS _ _ _
             · exact hE _ _ _
@@ -155,7 +162,9 @@ theorem step_frame (g : Grid) (op : Op) :
       · unfold setSamplingCore
         apply hb
         · split
-          · exact hE _ _ _
+          · split
+            · simp
+            · exact hE _ _ _
           · split
             · exact hG _ _ _
             · exact hE _ _ _
@@ -188,86 +197,109 @@ lemma Inv.wf {g : Grid} (h : Inv g) : WF g := ⟨h.ep, h.extLen, h.gpLen, h.saLe
 
 lemma setExtentCore_err (g : Grid) (rs : List Rat) (e : String) (hW : WF g) (hl : rs.length = g.dims)
     (h : (setExtentCore g (some rs)).2 = some e) : (setExtentCore g (some rs)).1 = g := by
-  have alpha : ∀ ds, g.sampling = some ds → (g.lockSampling || g.gpts.isNone) = true → (setExtentCore g (some rs)).1 = g := by
-    intro ds hs hc
-    have hdl := hW.saLen ds hs
-    have hGl := zipWith3_length adjustGptsElt g.dims rs ds g.endpoint hl hdl hW.ep
+  -- gpts recomputed from the sampling `ds` (no double lock): only the ZeroDivisionError can occur, before any mutation
+  have alpha : ∀ ds, g.sampling = some ds → (g.lockSampling || g.gpts.isNone) = true →
+      (g.lockGpts && g.gpts.isSome) = false → (setExtentCore g (some rs)).1 = g := by
+    intro ds hs hc hdl
+    have hdl' : (g.lockGpts && g.gpts.isSome && true) = false := by simpa using hdl
+    have hsl := hW.saLen ds hs
+    have hGl := zipWith3_length adjustGptsElt g.dims rs ds g.endpoint hl hsl hW.ep
     have hSl := zipWith3_length adjustSamplingElt g.dims rs (zipWith3 adjustGptsElt rs ds g.endpoint) g.endpoint hl hGl hW.ep
     by_cases hz : ((rs.zip ds).zip g.endpoint).any (fun x => decide (x.1.2 = 0)) = true
-    · simp [setExtentCore, hc, hs, adjustGpts, hz, Res.bind]
-    · simp [setExtentCore, hc, hs, adjustGpts, hz, adjustSampling, hSl, Res.bind] at h
+    · simp [setExtentCore, hc, hs, hdl', adjustGpts, hz, Res.bind]
+    · simp [setExtentCore, hc, hs, hdl', adjustGpts, hz, adjustSampling, hSl, Res.bind] at h
   rcases hg : g.gpts with _ | ns
   · rcases hs : g.sampling with _ | ds
     · simp [setExtentCore, hs, hg, adjustGpts, adjustSampling, Res.bind] at h
-    · exact alpha ds hs (by simp [hg])
-  · rcases hls : g.lockSampling with _ | _
-    · have hSl := zipWith3_length adjustSamplingElt g.dims rs ns g.endpoint hl (hW.gpLen ns hg) hW.ep
-      simp [setExtentCore, hg, hls, adjustSampling, hSl, Res.bind] at h
+    · exact alpha ds hs (by simp [hg]) (by simp [hg])
+  · have hSl := zipWith3_length adjustSamplingElt g.dims rs ns g.endpoint hl (hW.gpLen ns hg) hW.ep
+    rcases hls : g.lockSampling with _ | _
+    · simp [setExtentCore, hg, hls, adjustSampling, hSl, Res.bind] at h
     · rcases hs : g.sampling with _ | ds
-      · have hSl := zipWith3_length adjustSamplingElt g.dims rs ns g.endpoint hl (hW.gpLen ns hg) hW.ep
-        simp [setExtentCore, hg, hls, hs, adjustGpts, adjustSampling, hSl, Res.bind] at h
-      · exact alpha ds hs (by simp [hls])
+      · simp [setExtentCore, hg, hls, hs, adjustGpts, adjustSampling, hSl, Res.bind] at h
+      · rcases hlg : g.lockGpts with _ | _
+        · exact alpha ds hs (by simp [hls]) (by simp [hlg])
+        · simp [setExtentCore, hg, hls, hs, hlg, Res.bind]
 
 lemma setGptsCore_err (g : Grid) (vg : Option (List Int)) (e : String) (hW : WF g) (hl : ∀ ns, vg = some ns → ns.length = g.dims)
     (h : (setGptsCore g vg).2 = some e) : (setGptsCore g vg).1 = g := by
-  exfalso
-  rcases vg with _ | ns
-  · rcases he : g.extent with _ | rs <;> rcases hls : g.lockSampling with _ | _ <;>
-      simp [setGptsCore, he, hls, adjustExtent, adjustSampling, Res.bind] at h
-  · have hnl := hl ns rfl
-    rcases hs : g.sampling with _ | ds
-    · rcases he : g.extent with _ | rs
-      · rcases hls : g.lockSampling with _ | _ <;> simp [setGptsCore, he, hls, hs, adjustExtent, Res.bind] at h
-      · have hSl := zipWith3_length adjustSamplingElt g.dims rs ns g.endpoint (hW.extLen rs he) hnl hW.ep
-        rcases hls : g.lockSampling with _ | _ <;>
-          simp [setGptsCore, he, hls, hs, adjustExtent, adjustSampling, hSl, Res.bind] at h
-    · have hEl := zipWith3_length adjustExtentElt g.dims ns ds g.endpoint hnl (hW.saLen ds hs) hW.ep
-      rcases he : g.extent with _ | rs
-      · rcases hls : g.lockSampling with _ | _ <;> simp [setGptsCore, he, hls, hs, adjustExtent, hEl, Res.bind] at h
-      · have hSl := zipWith3_length adjustSamplingElt g.dims rs ns g.endpoint (hW.extLen rs he) hnl hW.ep
-        rcases hls : g.lockSampling with _ | _ <;>
-          simp [setGptsCore, he, hls, hs, adjustExtent, adjustSampling, hEl, hSl, Res.bind] at h
+  -- the only exception is the double-lock RuntimeError, raised before any mutation
+  by_cases hr : (g.lockSampling && g.sampling.isSome) = true ∧ (g.lockExtent && g.extent.isSome) = true
+  · simp [setGptsCore, hr.1, hr.2, Res.bind]
+  · exfalso
+    rcases vg with _ | ns
+    · rcases he : g.extent with _ | rs <;> rcases hls : g.lockSampling with _ | _ <;> rcases hs : g.sampling with _ | ds <;>
+        rcases hle : g.lockExtent with _ | _ <;>
+        simp_all [setGptsCore, adjustExtent, adjustSampling, Res.bind]
+    · have hnl := hl ns rfl
+      rcases hs : g.sampling with _ | ds
+      · rcases he : g.extent with _ | rs
+        · rcases hls : g.lockSampling with _ | _ <;> simp [setGptsCore, he, hls, hs, adjustExtent, Res.bind] at h
+        · have hSl := zipWith3_length adjustSamplingElt g.dims rs ns g.endpoint (hW.extLen rs he) hnl hW.ep
+          rcases hls : g.lockSampling with _ | _ <;>
+            simp [setGptsCore, he, hls, hs, adjustExtent, adjustSampling, hSl, Res.bind] at h
+      · have hEl := zipWith3_length adjustExtentElt g.dims ns ds g.endpoint hnl (hW.saLen ds hs) hW.ep
+        rcases he : g.extent with _ | rs
+        · rcases hls : g.lockSampling with _ | _ <;> simp [setGptsCore, he, hls, hs, adjustExtent, hEl, Res.bind] at h
+        · have hSl := zipWith3_length adjustSamplingElt g.dims rs ns g.endpoint (hW.extLen rs he) hnl hW.ep
+          rcases hls : g.lockSampling with _ | _
+          · simp [setGptsCore, he, hls, hs, adjustExtent, adjustSampling, hEl, hSl, Res.bind] at h
+          · rcases hle : g.lockExtent with _ | _
+            · simp [setGptsCore, he, hls, hs, hle, adjustExtent, adjustSampling, hEl, hSl, Res.bind] at h
+            · exact hr ⟨by simp [hls, hs], by simp [hle, he]⟩
 
 lemma setSamplingCore_err (g : Grid) (vs : Option (List Rat)) (e : String) (hW : WF g) (hl : ∀ ds, vs = some ds → ds.length = g.dims)
     (h : (setSamplingCore g vs).2 = some e) : (setSamplingCore g vs).1 = g := by
-  rcases vs with _ | ds
-  · exfalso
-    have r0 : (if g.lockGpts then adjustExtent g g.gpts none
-        else if g.extent.isSome then adjustGpts g g.extent none else adjustExtent g g.gpts none) = (g, none) := by
-      rcases hg : g.gpts with _ | ns <;> rcases he : g.extent with _ | rs <;> rcases hlg : g.lockGpts with _ | _ <;>
-        simp [adjustExtent, adjustGpts]
-    simp only [setSamplingCore, r0, Res.bind] at h
-    rcases he : g.extent with _ | rs
-    · simp [he] at h
-    · rcases hg : g.gpts with _ | ns
-      · simp [hg] at h
-      · have hSl := zipWith3_length adjustSamplingElt g.dims rs ns g.endpoint (hW.extLen rs he) (hW.gpLen ns hg) hW.ep
-        simp [he, hg, adjustSampling, hSl] at h
-  · have hdl := hl ds rfl
-    have caseA : (g.lockGpts = true ∨ g.extent = none) → (setSamplingCore g (some ds)).1 = g := by
-      intro hc
-      exfalso
-      rcases hg : g.gpts with _ | ns
-      · rcases hc with hc | hc
-        · simp [setSamplingCore, hc, hg, adjustExtent, Res.bind] at h
-        · rcases hlg : g.lockGpts with _ | _ <;> simp [setSamplingCore, hc, hlg, hg, adjustExtent, Res.bind] at h
-      · have hnl := hW.gpLen ns hg
-        have hEl := zipWith3_length adjustExtentElt g.dims ns ds g.endpoint hnl hdl hW.ep
-        have hSl := zipWith3_length adjustSamplingElt g.dims (zipWith3 adjustExtentElt ns ds g.endpoint) ns g.endpoint hEl hnl hW.ep
-        rcases hc with hc | hc
-        · simp [setSamplingCore, hc, hg, adjustExtent, adjustSampling, hEl, hSl, Res.bind] at h
-        · rcases hlg : g.lockGpts with _ | _ <;>
-            simp [setSamplingCore, hc, hlg, hg, adjustExtent, adjustSampling, hEl, hSl, Res.bind] at h
-    rcases hlg : g.lockGpts with _ | _
-    · rcases he : g.extent with _ | rs
-      · exact caseA (Or.inr he)
-      · have hrl := hW.extLen rs he
-        have hGl := zipWith3_length adjustGptsElt g.dims rs ds g.endpoint hrl hdl hW.ep
-        have hSl := zipWith3_length adjustSamplingElt g.dims rs (zipWith3 adjustGptsElt rs ds g.endpoint) g.endpoint hrl hGl hW.ep
-        by_cases hz : ((rs.zip ds).zip g.endpoint).any (fun x => decide (x.1.2 = 0)) = true
-        · simp [setSamplingCore, hlg, he, adjustGpts, hz, Res.bind]
-        · simp [setSamplingCore, hlg, he, adjustGpts, hz, adjustSampling, hSl, Res.bind] at h
-    · exact caseA (Or.inl hlg)
+  by_cases hr : g.lockGpts = true ∧ (g.lockExtent && g.extent.isSome && g.gpts.isSome) = true
+  · simp [setSamplingCore, hr.1, hr.2, Res.bind]
+  · have hnr : ∀ (a : Res), (if g.lockGpts then (if g.lockExtent && g.extent.isSome && g.gpts.isSome then (g, some "runtime_error") else a)
+        else a) = a := by
+      intro a
+      rcases hlg : g.lockGpts with _ | _
+      · simp
+      · rcases hx : (g.lockExtent && g.extent.isSome && g.gpts.isSome) with _ | _
+        · simp
+        · exact absurd ⟨hlg, hx⟩ hr
+    rcases vs with _ | ds
+    · exfalso
+      have r0 : (if g.lockGpts then (if g.lockExtent && g.extent.isSome && g.gpts.isSome then (g, some "runtime_error") else adjustExtent g g.gpts none)
+          else if g.extent.isSome then adjustGpts g g.extent none else adjustExtent g g.gpts none) = (g, none) := by
+        rcases hg : g.gpts with _ | ns <;> rcases he : g.extent with _ | rs <;> rcases hlg : g.lockGpts with _ | _ <;>
+          rcases hle : g.lockExtent with _ | _ <;> simp_all [adjustExtent, adjustGpts]
+      simp only [setSamplingCore, r0, Res.bind] at h
+      rcases he : g.extent with _ | rs
+      · simp [he] at h
+      · rcases hg : g.gpts with _ | ns
+        · simp [hg] at h
+        · have hSl := zipWith3_length adjustSamplingElt g.dims rs ns g.endpoint (hW.extLen rs he) (hW.gpLen ns hg) hW.ep
+          simp [he, hg, adjustSampling, hSl] at h
+    · have hdl := hl ds rfl
+      have caseA : (g.lockGpts = true ∨ g.extent = none) → (setSamplingCore g (some ds)).1 = g := by
+        intro hc
+        exfalso
+        rcases hg : g.gpts with _ | ns
+        · rcases hlg : g.lockGpts with _ | _ <;> rcases he : g.extent with _ | rs <;> rcases hle : g.lockExtent with _ | _ <;>
+            simp_all [setSamplingCore, adjustExtent, Res.bind]
+        · have hnl := hW.gpLen ns hg
+          have hEl := zipWith3_length adjustExtentElt g.dims ns ds g.endpoint hnl hdl hW.ep
+          have hSl := zipWith3_length adjustSamplingElt g.dims (zipWith3 adjustExtentElt ns ds g.endpoint) ns g.endpoint hEl hnl hW.ep
+          rcases hlg : g.lockGpts with _ | _
+          · rcases hc with hc | hc
+            · rw [hlg] at hc; cases hc
+            · simp [setSamplingCore, hc, hlg, hg, adjustExtent, adjustSampling, hEl, hSl, Res.bind] at h
+          · have hx : ¬ (g.lockExtent = true ∧ g.extent.isSome = true) := by
+              intro ⟨a, b⟩; exact hr ⟨hlg, by simp [a, b, hg]⟩
+            simp [setSamplingCore, hlg, hx, hg, adjustExtent, adjustSampling, hEl, hSl, Res.bind] at h
+      rcases hlg : g.lockGpts with _ | _
+      · rcases he : g.extent with _ | rs
+        · exact caseA (Or.inr he)
+        · have hrl := hW.extLen rs he
+          have hGl := zipWith3_length adjustGptsElt g.dims rs ds g.endpoint hrl hdl hW.ep
+          have hSl := zipWith3_length adjustSamplingElt g.dims rs (zipWith3 adjustGptsElt rs ds g.endpoint) g.endpoint hrl hGl hW.ep
+          by_cases hz : ((rs.zip ds).zip g.endpoint).any (fun x => decide (x.1.2 = 0)) = true
+          · simp [setSamplingCore, hlg, he, adjustGpts, hz, Res.bind]
+          · simp [setSamplingCore, hlg, he, adjustGpts, hz, adjustSampling, hSl, Res.bind] at h
+      · exact caseA (Or.inl hlg)
 
 lemma validate_len {k : Nat} {v : Val} {l : List Rat} (h : validate k v = .ok (some l)) : l.length = k := by
   cases v with
@@ -281,8 +313,8 @@ lemma validate_len {k : Nat} {v : Val} {l : List Rat} (h : validate k v = .ok (s
 
 /-- **An assignment either raises and leaves the grid exactly as it was, or succeeds** — for arbitrary values
 (zero, negative, wrong lengths, `None` …), every lock combination and every well-formed grid.  (The raising paths
-are: a lock, `_validate`, the broadcasting error of `allclose`, and the `ZeroDivisionError` of `_adjust_gpts`,
-all of which come before the first mutation.) -/
+are: a lock, two locks that determine the third quantity, `_validate`, the gpts check, the broadcasting error of `allclose`,
+and the `ZeroDivisionError` of `_adjust_gpts`, all of which come before the first mutation.) -/
 theorem error_leaves_unchanged (g : Grid) (op : Op) (e : String) (hW : WF g) (h : (step g op).2 = some e) :
     (step g op).1 = g := by
   cases op with
@@ -301,16 +333,19 @@ theorem error_leaves_unchanged (g : Grid) (op : Op) (e : String) (hW : WF g) (h 
           rcases hv : validate g.dims v with e' | ve
           · simp [hv]
           · simp only [hv] at h ⊢
-            rcases ve with _ | rs
-            · exact absurd (validate_none hv) hnone
-            · exact setExtentCore_err g rs e hW (validate_len hv) h
+            by_cases hk : (g.lockExtent && g.extent.isSome) = true
+            · simp [hk]
+            · simp only [hk, Bool.false_eq_true, if_false] at h ⊢
+              rcases ve with _ | rs
+              · exact absurd (validate_none hv) hnone
+              · exact setExtentCore_err g rs e hW (validate_len hv) h
         · simp [hq]
   | setGpts v =>
     simp only [step, setGpts] at h ⊢
     by_cases hl : g.lockGpts = true
     · simp [hl]
     · simp only [hl] at h ⊢
-      rcases hv : validateGpts g.dims v with e' | vg
+      rcases hv : validateGpts g.dims v g.extent with e' | vg
       · simp [hv]
       · simp only [hv] at h ⊢
         refine setGptsCore_err g _ e hW ?_ h
@@ -336,53 +371,52 @@ lemma validate_ne_none {k : Nat} {v : Val} {l : List Rat} (h : validate k v = .o
   rintro rfl; simp [validate] at h
 
 /-- A grid constructed from admissible arguments (any subset of extent / gpts / sampling, scalars or sequences)
-satisfies the invariant.  With `lock_sampling` the constructor must be able to determine a sampling. -/
+satisfies the invariant. -/
 theorem init_consistent (dims : Nat) (ep : List Bool) (extent gpts sampling : Val) (lE lG lS : Bool) (g : Grid)
     (hep : ep.length = dims) (hE : PosVal extent) (hG : GoodVal ep gpts) (hS : PosVal sampling)
-    (hls : lS = true → sampling ≠ Val.none ∨ (extent ≠ Val.none ∧ gpts ≠ Val.none))
     (h : init dims ep extent gpts sampling lE lG lS = .ok g) : Inv g := by
   rcases hve : validate dims extent with e1 | eo
   · simp [init, hve] at h
-  rcases hvg : validateGpts dims gpts with e1 | go
-  · simp [init, hve, hvg] at h
+  have hj : (validate dims extent).toOption.join = eo := by rw [hve]; rfl
+  unfold init at h
+  rw [hj] at h
+  rcases hvg : validateGpts dims gpts eo with e1 | go
+  · simp [hve, hvg] at h
   rcases hvs : validate dims sampling with e1 | so
-  · simp [init, hve, hvg, hvs] at h
+  · simp [hve, hvg, hvs] at h
   rcases eo with _ | rs <;> rcases go with _ | nl <;> rcases so with _ | ds
   · -- nothing given
     have h1 := validate_none hve; have h2 := validateGpts_none hvg; have h3 := validate_none hvs
     subst h1 h2 h3
-    simp only [init, hve, hvg, hvs] at h
+    simp only [hve, hvg, hvs] at h
     simp [adjustExtent, adjustGpts, adjustSampling, Res.bind] at h
     subst h
-    refine inv_partial _ hep (Or.inl rfl) ?_ ?_ ?_ ?_
+    refine inv_partial _ hep (Or.inl rfl) ?_ ?_ ?_
     · intro x hx; cases hx
     · intro x hx; cases hx
     · intro x hx; cases hx
-    · intro hx; rcases hls hx with h | ⟨h, _⟩ <;> exact absurd rfl h
   · -- sampling only
     have h1 := validate_none hve; have h2 := validateGpts_none hvg
     subst h1 h2
     obtain ⟨hl, hp⟩ := validate_pos hvs hS
-    simp only [init, hve, hvg, hvs] at h
+    simp only [hve, hvg, hvs] at h
     simp [validate_ne_none hvs, adjustExtent, adjustGpts, Res.bind] at h
     subst h
-    refine inv_partial _ hep (Or.inl rfl) ?_ ?_ ?_ ?_
+    refine inv_partial _ hep (Or.inl rfl) ?_ ?_ ?_
     · intro x hx; cases hx
     · intro x hx; cases hx
     · intro x hx; cases hx; exact ⟨hl, hp⟩
-    · intro _; rfl
   · -- gpts only
     have h1 := validate_none hve; have h3 := validate_none hvs
     subst h1 h3
     obtain ⟨hl, hg⟩ := validateGpts_good hvg hG
-    simp only [init, hve, hvg, hvs] at h
+    simp only [hve, hvg, hvs] at h
     simp [adjustExtent, adjustSampling, Res.bind] at h
     subst h
-    refine inv_partial _ hep (Or.inl rfl) ?_ ?_ ?_ ?_
+    refine inv_partial _ hep (Or.inl rfl) ?_ ?_ ?_
     · intro x hx; cases hx
     · intro x hx; cases hx; exact ⟨hl, hg⟩
     · intro x hx; cases hx
-    · intro hx; rcases hls hx with h | ⟨h, _⟩ <;> exact absurd rfl h
   · -- gpts and sampling: extent := gpts × sampling
     have h1 := validate_none hve
     subst h1
@@ -390,7 +424,7 @@ theorem init_consistent (dims : Nat) (ep : List Bool) (extent gpts sampling : Va
     obtain ⟨hdl, hp⟩ := validate_pos hvs hS
     have hnl : nl.length = dims := hl
     have hEl := zipWith3_length adjustExtentElt dims nl ds ep hnl hdl hep
-    simp only [init, hve, hvg, hvs] at h
+    simp only [hve, hvg, hvs] at h
     simp [validate_ne_none hvs, adjustExtent, hEl, Res.bind] at h
     subst h
     exact inv_extent_computed _ nl ds hep hnl hdl hp hg rfl rfl rfl
@@ -398,14 +432,13 @@ theorem init_consistent (dims : Nat) (ep : List Bool) (extent gpts sampling : Va
     have h2 := validateGpts_none hvg; have h3 := validate_none hvs
     subst h2 h3
     obtain ⟨hl, hp⟩ := validate_pos hve hE
-    simp only [init, hve, hvg, hvs] at h
+    simp only [hve, hvg, hvs] at h
     simp [adjustGpts, adjustSampling, Res.bind] at h
     subst h
-    refine inv_partial _ hep (Or.inr rfl) ?_ ?_ ?_ ?_
+    refine inv_partial _ hep (Or.inr rfl) ?_ ?_ ?_
     · intro x hx; cases hx; exact ⟨hl, hp⟩
     · intro x hx; cases hx
     · intro x hx; cases hx
-    · intro hx; rcases hls hx with h | ⟨_, h⟩ <;> exact absurd rfl h
   · -- extent and sampling: gpts := ceil(extent / sampling), then the sampling is recomputed
     have h2 := validateGpts_none hvg
     subst h2
@@ -413,7 +446,7 @@ theorem init_consistent (dims : Nat) (ep : List Bool) (extent gpts sampling : Va
     obtain ⟨hdl, hdp⟩ := validate_pos hvs hS
     have hGl := zipWith3_length adjustGptsElt dims rs ds ep hl hdl hep
     have hSl := zipWith3_length adjustSamplingElt dims rs (zipWith3 adjustGptsElt rs ds ep) ep hl hGl hep
-    simp only [init, hve, hvg, hvs] at h
+    simp only [hve, hvg, hvs] at h
     simp [validate_ne_none hve, adjustGpts, no_zero_of_pos rs ds ep hdp, adjustSampling, hSl, Res.bind] at h
     subst h
     exact inv_sampling_recomputed _ rs _ hep hl hGl hp (goodL_adjustGpts rs ds ep hp hdp) rfl rfl rfl
@@ -424,7 +457,7 @@ theorem init_consistent (dims : Nat) (ep : List Bool) (extent gpts sampling : Va
     obtain ⟨hnl0, hg⟩ := validateGpts_good hvg hG
     have hnl : nl.length = dims := hnl0
     have hSl := zipWith3_length adjustSamplingElt dims rs nl ep hl hnl hep
-    simp only [init, hve, hvg, hvs] at h
+    simp only [hve, hvg, hvs] at h
     simp [adjustSampling, hSl, Res.bind] at h
     subst h
     exact inv_sampling_recomputed _ rs _ hep hl hnl hp hg rfl rfl rfl
@@ -433,7 +466,7 @@ theorem init_consistent (dims : Nat) (ep : List Bool) (extent gpts sampling : Va
     obtain ⟨hnl0, hg⟩ := validateGpts_good hvg hG
     have hnl : nl.length = dims := hnl0
     have hSl := zipWith3_length adjustSamplingElt dims rs nl ep hl hnl hep
-    simp only [init, hve, hvg, hvs] at h
+    simp only [hve, hvg, hvs] at h
     simp [validate_ne_none hve, adjustSampling, hSl, Res.bind] at h
     subst h
     exact inv_sampling_recomputed _ rs _ hep hl hnl hp hg rfl rfl rfl
@@ -464,10 +497,21 @@ lemma bind_proj {α} (proj : Grid → α) (r : Res) (f : Grid → Res) (hf : ∀
     proj (r.bind f).1 = proj r.1 := by
   rcases r with ⟨g1, _ | e⟩ <;> simp [Res.bind, hf]
 
-/-- **`lock_gpts`** (the lock abTEM uses for wave-function arrays): with defined gpts and without `lock_sampling`,
-no assignment — successful or not, admissible values or not — changes the gpts. -/
-theorem lock_gpts_protects (g : Grid) (op : Op) (hl : g.lockGpts = true) (hs : g.lockSampling = false)
-    (hg : g.gpts.isSome = true) : (step g op).1.gpts = g.gpts := by
+lemma adjustGpts_gpts_none (g : Grid) (a : Option (List Rat)) : adjustGpts g a none = (g, none) := by
+  cases a <;> rfl
+
+lemma adjustExtent_none (g : Grid) (b : Option (List Rat)) : adjustExtent g none b = (g, none) := by
+  cases b <;> rfl
+
+/-- **`lock_gpts`** (the lock abTEM uses for wave-function arrays): defined, locked gpts are never changed by an
+assignment — successful or not, admissible values or not, whatever the other locks (an extent assignment under
+`lock_gpts` + `lock_sampling` raises since the repair of the double locks). -/
+theorem lock_gpts_protects (g : Grid) (op : Op) (hl : g.lockGpts = true) (hg : g.gpts.isSome = true) :
+    (step g op).1.gpts = g.gpts := by
+  have hgn : g.gpts.isNone = false := by
+    rcases h : g.gpts with _ | ns
+    · simp [h] at hg
+    · rfl
   cases op with
   | setExtent v =>
     simp only [step, setExtent]
@@ -478,78 +522,106 @@ theorem lock_gpts_protects (g : Grid) (op : Op) (hl : g.lockGpts = true) (hs : g
       · rfl
       · split
         · rfl
-        · have hc : (g.lockSampling || g.gpts.isNone) = false := by
-            rcases h : g.gpts with _ | ns
-            · simp [h] at hg
-            · simp [hs]
-          simp only [setExtentCore, hc, Bool.false_eq_true, if_false]
-          rw [bind_proj (fun g => g.gpts) _ _ (by intro g1; rfl)]
-          exact adjustSampling_gpts _ _ _
+        · split
+          · rfl
+          · simp only [setExtentCore, hgn, Bool.or_false, hl, hg, Bool.true_and]
+            rw [bind_proj (fun g => g.gpts) _ _ (by intro g1; rfl)]
+            rcases hls : g.lockSampling with _ | _
+            · simp only [Bool.false_eq_true, if_false]; exact adjustSampling_gpts _ _ _
+            · simp only [if_true]
+              rcases hs : g.sampling with _ | ds
+              · simp only [Option.isSome_none, Bool.false_eq_true, if_false, adjustGpts_gpts_none, Res.bind]
+                exact adjustSampling_gpts _ _ _
+              · simp
   | setGpts v => simp [step, setGpts, hl]
   | setSampling v =>
-    simp only [step, setSampling, hs, Bool.false_eq_true, if_false]
+    simp only [step, setSampling]
     split
     · rfl
-    · simp only [setSamplingCore, hl, if_true]
-      rw [bind_proj (fun g => g.gpts) _ _ (by
-        intro g1; split
+    · split
+      · rfl
+      · simp only [setSamplingCore, hl, if_true]
+        rw [bind_proj (fun g => g.gpts) _ _ (by
+          intro g1; split
+          · rfl
+          · exact adjustSampling_gpts _ _ _)]
+        split
         · rfl
-        · exact adjustSampling_gpts _ _ _)]
-      exact adjustExtent_gpts _ _ _
+        · exact adjustExtent_gpts _ _ _
 
 /-- **`lock_gpts` over histories**: no sequence of assignments (any values, exceptions caught) changes locked, defined gpts -/
-theorem lock_gpts_protects_history (ops : List Op) : ∀ (g : Grid), g.lockGpts = true → g.lockSampling = false →
+theorem lock_gpts_protects_history (ops : List Op) : ∀ (g : Grid), g.lockGpts = true →
     g.gpts.isSome = true → (run g ops).gpts = g.gpts := by
   induction ops with
-  | nil => intro g _ _ _; rfl
+  | nil => intro g _ _; rfl
   | cons op ops ih =>
-    intro g hl hs hg
-    have h1 := lock_gpts_protects g op hl hs hg
+    intro g hl hg
+    have h1 := lock_gpts_protects g op hl hg
     have hf := step_frame g op
-    have := ih (step g op).1 (by rw [hf.2.2.2.1]; exact hl) (by rw [hf.2.2.2.2]; exact hs) (by rw [h1]; exact hg)
+    have := ih (step g op).1 (by rw [hf.2.2.2.1]; exact hl) (by rw [h1]; exact hg)
     simp only [run, List.foldl_cons] at this ⊢
     rw [this, h1]
 
-/-- **`lock_extent`** (the lock abTEM uses for potentials): with a defined extent and no other lock, an assignment
-leaves the extent untouched unless it is an assignment *to the extent* of a value that `numpy.allclose` accepts as
-equal to the current one (assigning `None` raises since fix 718fdf49). -/
-theorem lock_extent_protects (g : Grid) (op : Op) (rs : List Rat) (hl : g.lockExtent = true) (hs : g.lockSampling = false)
-    (hg : g.lockGpts = false) (he : g.extent = some rs) :
-    (step g op).1.extent = some rs ∨ ∃ v, op = .setExtent v ∧ v ≠ Val.none ∧ allclose v rs = .ok true := by
+/-- **`lock_extent`** (the lock abTEM uses for potentials): a defined, locked extent is never changed by an assignment —
+whatever the other locks and the values.  An extent that `numpy.allclose` accepts as equal leaves the grid as it is
+(repaired: it used to REPLACE the locked extent, which then drifted without bound over a history), `None` and any other
+extent raise, and assignments to gpts / sampling re-derive the remaining quantity or raise when that is locked too. -/
+theorem lock_extent_protects (g : Grid) (op : Op) (rs : List Rat) (hl : g.lockExtent = true) (he : g.extent = some rs) :
+    (step g op).1.extent = some rs := by
+  have hes : g.extent.isSome = true := by rw [he]; rfl
   cases op with
   | setExtent v =>
-    by_cases hnone : v = Val.none
-    · left; simp [step, setExtent, hnone, hl, he]
-    · simp only [step, setExtent, hnone, if_false]
-      rcases hq : extentLockFails g v with e' | b
-      · left; simpa using he
-      · cases b
-        · right
-          refine ⟨v, rfl, hnone, ?_⟩
-          simp only [extentLockFails, hl, if_true, he] at hq
-          rcases hc : allclose v rs with e' | c
-          · simp [hc, Except.map] at hq
-          · simp [hc, Except.map] at hq; rw [hq]
-        · left; simpa using he
+    simp only [step, setExtent, hl, hes, Bool.and_self, if_true]
+    split
+    · exact he
+    · split
+      · exact he
+      · exact he
+      · split <;> exact he
   | setGpts v =>
-    left
-    simp only [step, setGpts, hg, Bool.false_eq_true, if_false]
+    simp only [step, setGpts]
     split
     · exact he
-    · simp only [setGptsCore, hs, Bool.false_eq_true, if_false, he, Option.isSome_some, if_true]
-      rw [bind_proj (fun g => g.extent) _ _ (by intro g1; rfl), adjustSampling_extent]
-      exact he
+    · split
+      · exact he
+      · simp only [setGptsCore, hl, hes, Bool.and_self, if_true]
+        rw [bind_proj (fun g => g.extent) _ _ (by intro g1; rfl)]
+        split
+        · exact he
+        · rw [adjustSampling_extent]; exact he
   | setSampling v =>
-    left
-    simp only [step, setSampling, hs, Bool.false_eq_true, if_false]
+    simp only [step, setSampling]
     split
     · exact he
-    · simp only [setSamplingCore, hg, Bool.false_eq_true, if_false, he, Option.isSome_some, if_true]
-      rw [bind_proj (fun g => g.extent) _ _ (by
-        intro g1; split
-        · rfl
-        · exact adjustSampling_extent _ _ _), adjustGpts_extent]
-      exact he
+    · split
+      · exact he
+      · simp only [setSamplingCore, hl, hes, Bool.true_and, if_true]
+        rw [bind_proj (fun g => g.extent) _ _ (by
+          intro g1; split
+          · rfl
+          · exact adjustSampling_extent _ _ _)]
+        split
+        · split
+          · exact he
+          · rename_i hgp
+            have : g.gpts = none := by
+              rcases h : g.gpts with _ | ns
+              · rfl
+              · simp [h] at hgp
+            rw [this, adjustExtent_none]; exact he
+        · rw [adjustGpts_extent]; exact he
+
+/-- **`lock_extent` over histories**: the locked extent at the end of any history is the one at its start (no drift) -/
+theorem lock_extent_protects_history (ops : List Op) : ∀ (g : Grid) (rs : List Rat), g.lockExtent = true →
+    g.extent = some rs → (run g ops).extent = some rs := by
+  induction ops with
+  | nil => intro g rs _ he; exact he
+  | cons op ops ih =>
+    intro g rs hl he
+    have h1 := lock_extent_protects g op rs hl he
+    have hf := step_frame g op
+    have := ih (step g op).1 rs (by rw [hf.2.2.1]; exact hl) h1
+    simpa [run] using this
 
 /-! ### check_match -/
 
@@ -664,44 +736,11 @@ theorem lock_sampling_protects_counterexample :
   have := h ⟨1, [false], none, none, some [3/10], false, false, true⟩ (.setExtent (.scalar 1)) rfl rfl (by decide +kernel)
   revert this; decide +kernel
 
-/-- with `lock_sampling` and a second lock, a successful assignment overwrites the other locked quantity
-(`lock_gpts`: the extent setter recomputes the gpts; `lock_extent`: the gpts setter recomputes the extent) -/
-theorem double_lock_with_sampling_protects_counterexample :
-    ¬ (∀ (g : Grid) (op : Op), g.lockSampling = true → (step g op).2 = none →
-        (g.lockGpts = true → (step g op).1.gpts = g.gpts) ∧ (g.lockExtent = true → (step g op).1.extent = g.extent)) := by
-  intro h
-  have h1 := (h ⟨1, [false], some [1], some [4], some [1/4], false, true, true⟩ (.setExtent (.scalar 2)) rfl (by decide +kernel)).1 rfl
-  revert h1; decide +kernel
-
-theorem lock_extent_and_sampling_protects_counterexample :
-    ¬ (∀ (g : Grid) (op : Op), g.lockSampling = true → g.lockExtent = true → (step g op).2 = none →
-        (step g op).1.extent = g.extent) := by
-  intro h
-  have h1 := h ⟨1, [false], some [1], some [4], some [1/4], true, false, true⟩ (.setGpts (.scalar 8)) rfl rfl (by decide +kernel)
-  revert h1; decide +kernel
-
-/-- with `lock_extent` and `lock_gpts` a sampling assignment overwrites the locked extent -/
-theorem lock_extent_and_gpts_protects_counterexample :
-    ¬ (∀ (g : Grid) (op : Op), g.lockExtent = true → g.lockGpts = true → (step g op).2 = none →
-        (step g op).1.extent = g.extent) := by
-  intro h
-  have h1 := h ⟨1, [false], some [1], some [4], some [1/4], true, true, false⟩ (.setSampling (.scalar (1/2))) rfl rfl (by decide +kernel)
-  revert h1; decide +kernel
-
 /-- assigning `None` to a locked, defined extent raises and changes nothing (repaired in /repo 718fdf49; before, the
 assignment succeeded and removed the extent, after which any extent could be assigned) -/
 theorem lock_extent_none_rejected (g : Grid) (hl : g.lockExtent = true) (he : g.extent.isSome = true) :
     step g (.setExtent .none) = (g, some "runtime_error") := by
   simp [step, setExtent, hl, he]
-
-/-- with `lock_sampling` but no sampling, assigning gpts to a grid with an extent leaves a "defined" grid
-(extent and gpts set) without any sampling -/
-theorem lock_sampling_undefined_sampling_counterexample :
-    ¬ (∀ (g : Grid) (op : Op), (step g op).2 = none → (step g op).1.extent.isSome = true → (step g op).1.gpts.isSome = true →
-        (step g op).1.sampling.isSome = true) := by
-  intro h
-  have h1 := h ⟨1, [false], some [1], none, none, false, false, true⟩ (.setGpts (.scalar 4)) (by decide +kernel) (by decide +kernel) (by decide +kernel)
-  revert h1; decide +kernel
 
 /-- `endpoint` with a single grid point: `_safe_divide` sets the sampling to 0 and keeps the extent, so
 `extent = (gpts − 1) × sampling` fails (`1 ≠ 0 · 0`); the guard `gpts ≥ 2` of `consistent_preserved` is needed -/
@@ -714,15 +753,41 @@ theorem endpoint_single_point_consistent_counterexample :
     (by decide +kernel) (by decide +kernel) (by decide +kernel) (by decide +kernel) (by decide +kernel)
   revert h1; decide +kernel
 
-/-- non-positive gpts are rejected and change nothing (repaired in /repo: the gpts setter and the constructor now call the
-existing `validate_gpts`; before, `gpts = 0` was accepted and left extent 1 with sampling 0) -/
-theorem nonpositive_gpts_rejected (g : Grid) (x : Rat) (hl : g.lockGpts = false) (hd : 0 < g.dims) (hx : pyInt x ≤ 0) :
+/-- two locks determine the third quantity: an assignment that would have to overwrite a locked quantity raises and changes
+nothing (repaired: it used to overwrite the locked gpts / extent) -/
+theorem double_lock_rejected :
+    step ⟨1, [false], some [1], some [4], some [1/4], false, true, true⟩ (.setExtent (.scalar 2))
+      = (⟨1, [false], some [1], some [4], some [1/4], false, true, true⟩, some "runtime_error") ∧
+    step ⟨1, [false], some [1], some [4], some [1/4], true, false, true⟩ (.setGpts (.scalar 8))
+      = (⟨1, [false], some [1], some [4], some [1/4], true, false, true⟩, some "runtime_error") ∧
+    step ⟨1, [false], some [1], some [4], some [1/4], true, true, false⟩ (.setSampling (.scalar (1/2)))
+      = (⟨1, [false], some [1], some [4], some [1/4], true, true, false⟩, some "runtime_error") := by
+  refine ⟨by decide +kernel, by decide +kernel, by decide +kernel⟩
+
+/-- with `lock_sampling` but no sampling to protect, a gpts assignment derives the sampling (repaired: the grid was left
+with extent and gpts defined and the sampling `None`) -/
+theorem lock_sampling_without_sampling_derives_it :
+    step ⟨1, [false], some [1], none, none, false, false, true⟩ (.setGpts (.scalar 4))
+      = (⟨1, [false], some [1], some [4], some [1/4], false, false, true⟩, none) := by decide +kernel
+
+/-- negative gpts are rejected and change nothing (`Grid._check_gpts`) -/
+theorem negative_gpts_rejected (g : Grid) (x : Rat) (hl : g.lockGpts = false) (hd : 0 < g.dims) (hx : pyInt x < 0) :
     step g (.setGpts (.scalar x)) = (g, some "value_error") := by
   have hrep : (List.replicate g.dims x).map pyInt = List.replicate g.dims (pyInt x) := by simp
-  have : ((List.replicate g.dims (pyInt x)).all fun n => decide (0 < n)) = false := by
-    rw [List.all_eq_false]
-    exact ⟨pyInt x, List.mem_replicate.mpr ⟨by omega, rfl⟩, by simp; omega⟩
+  have : ((List.replicate g.dims (pyInt x)).any fun n => decide (n < 0)) = true := by
+    rw [List.any_eq_true]
+    exact ⟨pyInt x, List.mem_replicate.mpr ⟨by omega, rfl⟩, by simpa using hx⟩
   simp [step, setGpts, hl, validateGpts, validate, hrep, this]
+
+/-- `gpts = 0` is rejected next to an undefined or a non-zero extent (it is legal only for a zero extent: an empty scan
+block); repaired: it was accepted and left extent 1 with sampling 0 -/
+theorem zero_gpts_rejected :
+    step ⟨1, [false], some [1], some [4], some [1/4], false, false, false⟩ (.setGpts (.scalar 0))
+      = (⟨1, [false], some [1], some [4], some [1/4], false, false, false⟩, some "value_error") ∧
+    step ⟨1, [false], none, none, some [1/4], false, false, false⟩ (.setGpts (.scalar 0))
+      = (⟨1, [false], none, none, some [1/4], false, false, false⟩, some "value_error") ∧
+    (step ⟨1, [false], some [0], none, none, false, false, false⟩ (.setGpts (.scalar 0))).2 = none := by
+  refine ⟨by decide +kernel, by decide +kernel, by decide +kernel⟩
 
 /-- a *negative* extent is still accepted (no sign check on extents and samplings): with a sampling and no gpts the
 setter computes `gpts = ⌈−2/2.4⌉ = 0`, `_safe_divide` sets the sampling to 0 and the extent stays −2 — neither an
@@ -757,7 +822,7 @@ example : ∃ g, init 2 [false, true] (.scalar 1) (.scalar 4) .none false false 
     intro e _; cases e <;> decide +kernel
   have hI : Inv _ := init_consistent 2 [false, true] (.scalar 1) (.scalar 4) .none false false false
     ⟨2, [false, true], some [1, 1], some [4, 4], some [1/4, 1/3], false, false, false⟩ rfl
-    (by show (0 : Rat) < 1; norm_num) hgood trivial (by intro h; cases h) (by decide +kernel)
+    (by show (0 : Rat) < 1; norm_num) hgood trivial (by decide +kernel)
   refine ⟨_, by decide +kernel, hI, history_consistent _ _ hI ?_⟩
   intro op hop
   simp only [List.mem_cons, List.mem_nil_iff, or_false] at hop
